@@ -119,9 +119,15 @@ def nkeys():
     return part("nkeys")
 
 
+def kbase():
+    """pre-state kinds per key: absent / ready / metadata-only (+ for conditional combinations: data in the second component
+    because the first refused it, and a later metadata write accepted by the first)"""
+    return 4 if 9 <= part("config") <= 12 else 3
+
+
 def ob_map(pre: int, ki: int, ti: int, attr: int) -> bool:
     """
-    pre: part("lo") <= pre < part("hi") and pre < 3 ** nkeys() and 0 <= ki < nkeys() and 0 <= ti < NTYPES and 0 <= attr <= 2
+    pre: part("lo") <= pre < part("hi") and pre < kbase() ** nkeys() and 0 <= ki < nkeys() and 0 <= ti < NTYPES and 0 <= attr <= 2
     pre: part("op") == 0 or (ti == 0 and attr == 0)
     pre: part("op") not in (4, 5) or ki == 0
     pre: part("config") >= 9 and part("config") <= 12 or attr == 0
@@ -130,8 +136,9 @@ def ob_map(pre: int, ki: int, ti: int, attr: int) -> bool:
     ci, op = part("config"), OPS[part("op")]
     n = nkeys()
     lo = part("lo")
-    code = lo + pick(pre - lo, min(part("hi"), 3 ** n) - lo)
-    kinds = [(code // (3 ** i)) % 3 for i in range(n)]       # 0 absent, 1 ready, 2 metadata-only
+    KB = kbase()
+    code = lo + pick(pre - lo, min(part("hi"), KB ** n) - lo)
+    kinds = [(code // (KB ** i)) % KB for i in range(n)]       # 0 absent, 1 ready, 2 metadata-only, 3 split over both components
     K = KEYS[:n]
     key = K[pick(ki, n)]
     ti = pick(ti, NTYPES)
@@ -149,6 +156,15 @@ def ob_map(pre: int, ki: int, ti: int, attr: int) -> bool:
                 if not c.store_metadata(dict(query=k, status="evaluation", attributes=({"x": "v"} if ci in (9, 11) else {}))):
                     return True
                 model[k] = ("meta", None)
+            elif kind == 3:
+                # the first (conditional) component refuses the data, the second takes it; a later progress report is accepted by the first
+                v = value(j % NTYPES, k, "old")
+                refused_attr = {9: None, 10: True, 11: "other", 12: "v"}[ci]
+                accepted_attr = {9: "v", 10: None, 11: "v", 12: "other"}[ci]
+                if not c.store(mkstate(k, v, attr=refused_attr)):
+                    return True
+                c.store_metadata(dict(query=k, status="evaluation", attributes=({"x": accepted_attr} if accepted_attr is not None else {})))
+                model[k] = ("hidden-or", ("ready", v))
         stored = None
         if op == "store":
             v = value(ti, key, "new")
@@ -160,6 +176,8 @@ def ob_map(pre: int, ki: int, ti: int, attr: int) -> bool:
         elif op.startswith("store_metadata"):
             status = op.rsplit("_", 1)[1]
             was = model.get(key)
+            if was and was[0] == "hidden-or":
+                was = was[1]
             from liquer.state_types import type_identifier_of
             tid = type_identifier_of(was[1]) if (was and was[0] == "ready") else "text"   # a caller describes the value truthfully
             c.store_metadata(dict(query=key, status=status, type_identifier=tid, attributes={}))
@@ -188,7 +206,7 @@ def ob_map(pre: int, ki: int, ti: int, attr: int) -> bool:
             elif m[0] == "meta":
                 ok = ok and g is None                     # metadata alone never makes data retrievable
             elif m[0] == "hidden-or":
-                ok = ok and (g is None or (g != "raises" and _same(g.data, m[1][1])))
+                ok = ok and (g is None or (g != "raises" and m[1] is not None and _same(g.data, m[1][1])))
             elif m[0] == "maybe":
                 was = m[1]
                 ok = ok and (g is None or (was is not None and was[0] == "ready" and g != "raises" and _same(g.data, was[1])))
@@ -231,12 +249,12 @@ def obligations(tier):
     n = 3 if q else 4
     for ci in configs:
         for op in range(len(OPS)):
-            total = 3 ** n
+            total = (4 if 9 <= ci <= 12 else 3) ** n
             chunk = 27 if op == 0 else total
             for lo in range(0, total, chunk):
                 obs.append(Ob("ob_map", dict(config=ci, op=op, nkeys=n, lo=lo, hi=min(total, lo + chunk)), timeout=200 if q else 1500, per_path=30,
-                              bounds="%s, op=%s; pre-states %d..%d of 3^%d over keys %s x operated key x 5 value types%s" % (
-                                  CONFIGS[ci], OPS[op], lo, min(total, lo + chunk), n, KEYS[:n], " x 3 attribute values" if 9 <= ci <= 12 else "")))
+                              bounds="%s, op=%s; pre-states %d..%d of %d over keys %s x operated key x 5 value types%s" % (
+                                  CONFIGS[ci], OPS[op], lo, min(total, lo + chunk), total, KEYS[:n], " x 3 attribute values" if 9 <= ci <= 12 else "")))
     for l1 in ([1, 2] if q else [1, 2, 3, 4]):
         obs.append(Ob("ob_topath", dict(l1=l1, n=l1 + 14), timeout=200 if q else 1500, per_path=60,
                       bounds="nested StoreCache.to_path on free symbolic keys |k1|=%d, 1<=|k2|<=%d (long enough to embed '/0state_.data')" % (l1, l1 + 14)))
